@@ -190,6 +190,74 @@ fn judge(run: &ScriptRun, out: &mut Vec<Violation>) -> (u64, Vec<u64>) {
     (objs.iter().map(|o| o.pkts.len() as u64).sum(), states.into_iter().collect())
 }
 
+/// Carousel objects of a higher-priority queue: once the carousel delay of such an object is over (counted from the
+/// end of its last transfer, or from its start for IntervalBetweenStartTimes) it is ready again, and no packet of a
+/// lower-priority object may be emitted until its next transfer has started. Times are the virtual instants of the
+/// reads; "over" is strict (the sender polls at discrete instants).
+fn judge_carousel_ready(run: &ScriptRun, out: &mut Vec<Violation>) -> u64 {
+    let mut judged = 0u64;
+    let us = |t: std::time::SystemTime| util::since_t0_us(t) as i128;
+    for (i, o) in run.objs.iter().enumerate() {
+        let (toi, car) = match (run.tois[i], o.carousel) {
+            (Some(t), Some(c)) => (t, c),
+            _ => continue,
+        };
+        if o.max_transfer_count > 1 || run.ops.iter().any(|x| matches!(x.op, Op::Remove(k) if k == i)) {
+            continue;
+        }
+        // (start index, start time, stop index, stop time) of every finished transfer
+        let mut trs: Vec<(usize, i128, Option<(usize, i128)>)> = vec![];
+        for (idx, e) in &run.sub_events {
+            match e {
+                SubEv::Start(t, at) if *t == toi => trs.push((*idx, us(*at), None)),
+                SubEv::Stop(t, at) if *t == toi => {
+                    if let Some(l) = trs.last_mut() {
+                        if l.2.is_none() {
+                            l.2 = Some((*idx, us(*at)));
+                        }
+                    }
+                }
+                _ => {}
+            }
+        }
+        for j in 0..trs.len() {
+            let (stop_idx, stop_t) = match trs[j].2 {
+                Some(x) => x,
+                None => continue,
+            };
+            let (reference, d_us) = match car {
+                CarouselSpec::DelayMs(ms) => (stop_t, ms as i128 * 1000),
+                CarouselSpec::IntervalMs(ms) => (trs[j].1, ms as i128 * 1000),
+            };
+            let next_start = trs.get(j + 1).map(|t| t.0).unwrap_or(run.stream.len());
+            for k in stop_idx..next_start.min(run.stream.len()) {
+                let p = &run.stream[k];
+                if p.toi() == 0 {
+                    continue;
+                }
+                let low = match run.tois.iter().position(|t| *t == Some(p.toi())) {
+                    Some(x) => x,
+                    None => continue,
+                };
+                if run.objs[low].priority <= o.priority {
+                    continue;
+                }
+                judged += 1;
+                if us(p.t) - reference > d_us {
+                    out.push(Violation::new("carousel_ready_preempted", format!(
+                        "packet {} (t = {} ms) belongs to TOI {} of queue {} while the carousel object TOI {} of the higher-priority queue {} was ready again: its delay {:?} was over since {} ms and its next transfer {}",
+                        k, us(p.t) / 1000, p.toi(), run.objs[low].priority, toi, o.priority, car, (reference + d_us) / 1000,
+                        match trs.get(j + 1) { Some(t) => format!("starts at packet index {}", t.0), None => "never starts".to_string() }))
+                        .with("carousel", format!("{:?}", car)).with("full_fdt", run.spec.full_fdt)
+                        .witness(json!({"run": run.json(), "high": i, "low": low, "packet": k})));
+                    return judged;
+                }
+            }
+        }
+    }
+    judged
+}
+
 fn run_case(spec: &SenderSpec, objs: &[ObjSpec], script: &[(When, Op)], shape: &str, cr: &mut CaseResult) {
     run_case_horizon(spec, objs, script, shape, 400, cr)
 }
@@ -438,6 +506,71 @@ fn main() {
             }
             let mut cr = CaseResult::default();
             run_case_horizon(&spec, &objs, &script, &format!("q|{}|{}|{}|{}|{}|{}", nq, nrep, nsingle, spec.full_fdt, by_time, removal), 120, &mut cr);
+            cr
+        }));
+        // ---- carousel objects in a higher-priority queue, a long transmission in a lower one, a few packets per poll and
+        // polls every 30-170 ms: when the carousel delay (150 ms .. 2.3 s, both repeat modes) of the high-priority object
+        // is over, it goes first again
+        let n3 = ctx.tier.pick(1500usize, 60_000);
+        gens.push(Gen::new("carousel_ready", n3, move |ctx, i| {
+            let mut rng = Rng::keyed(ctx.seed, "C13c", 0, i as u64);
+            let mut spec = SenderSpec::new(OtiSpec::new(Fec::NoCode, 4096, 8, 0));
+            spec.full_fdt = rng.chance(1, 2);
+            spec.interleave = rng.range(1, 3) as u8;
+            let m = rng.below(3) as u32;
+            spec.queues = vec![(0, m), (4, rng.below(3) as u32)];
+            spec.fdt_carousel = CarouselSpec::DelayMs(3_600_000);
+            let mut objs = vec![];
+            let mut script: Vec<(When, Op)> = vec![];
+            let nhigh = rng.range(1, 3) as usize;
+            for k in 0..nhigh {
+                let len = rng.range(1, 40) as usize;
+                let mut o = ObjSpec::new(gen_bytes(&mut rng, len), &format!("file:///c/high{}", k));
+                o.oti = Some(OtiSpec::new(Fec::NoCode, 8, 2, 0));
+                o.priority = 0;
+                let ms = *rng.pick(&[150u64, 250, 450, 1000, 1200, 1500, 2300]);
+                o.carousel = Some(if rng.chance(1, 2) { CarouselSpec::DelayMs(ms) } else { CarouselSpec::IntervalMs(ms) });
+                script.push((When::Start, Op::Add(objs.len())));
+                objs.push(o);
+            }
+            let nlow = rng.range(1, 3) as usize;
+            for k in 0..nlow {
+                let len = rng.range(600, 1600) as usize;
+                let mut o = ObjSpec::new(gen_bytes(&mut rng, len), &format!("file:///c/low{}", k));
+                o.oti = Some(OtiSpec::new(Fec::NoCode, 8, 4, 0));
+                o.priority = 4;
+                script.push((When::Start, Op::Add(objs.len())));
+                objs.push(o);
+            }
+            script.push((When::Start, Op::Publish));
+            let step = *rng.pick(&[30u64, 50, 100, 170]);
+            // a few reads (1-3) per poll instant, one packet each
+            let per = rng.range(1, 4) as usize;
+            let mut opts = ScriptOpts::every(step, 1);
+            opts.instants = (0..300u64).flat_map(|n| std::iter::repeat(n * step).take(per)).collect();
+            opts.drain = false;
+            opts.max_packets = 4000;
+            opts.stop_when_empty = false;
+            let mut cr = CaseResult::default();
+            match util::guarded(|| run_script(&spec, &objs, &script, &opts)) {
+                Ok(Ok(run)) => {
+                    let (n, st) = judge(&run, &mut cr.violations);
+                    // the run ends at its horizon with low-priority objects still waiting: "never sent" means nothing here
+                    cr.violations.retain(|v| v.clause != "ready_never_sent");
+                    let judged = judge_carousel_ready(&run, &mut cr.violations);
+                    cr.count("object_packets", n);
+                    cr.count("low_priority_packets_judged_against_a_waiting_carousel_object", judged);
+                    let rounds: usize = (0..nhigh).map(|k| run.tois[k].map(|t| run.transfers_of(t).len()).unwrap_or(0)).sum();
+                    cr.count("carousel_rounds_of_high_priority_objects", rounds as u64);
+                    cr.states = st;
+                    if judged > 0 {
+                        cr.shape = Some(util::fnv(&format!("c|{}|{}|{}|{}|{}", nhigh, nlow, step, per, spec.full_fdt)));
+                    }
+                }
+                Ok(Err(e)) => cr.inconclusive = Some(e),
+                Err(p) => cr.violations.push(Violation::new(if p.is_step_budget() { "hang" } else { "panic" }, format!("{} @ {}", p.msg, p.short_loc())).with("site", if p.is_step_budget() { p.step_site() } else { p.file() })),
+            }
+            limit(&mut cr.violations, 2);
             cr
         }));
         gens
